@@ -3,6 +3,8 @@ import XmlRsModel.Thm.C13
 import XmlRsModel.Lemmas.DomEffect
 import XmlRsModel.Lemmas.DomHeight
 import XmlRsModel.Thm.C12
+import XmlRsModel.Thm.C03
+import XmlRsModel.Lemmas.AbsDepth
 import XmlRsModel.Lemmas.DataValid
 import XmlRsModel.Lemmas.DataValidPI
 /-! Property C15: edits that succeed keep the document serializable and faithful.
@@ -311,6 +313,15 @@ theorem depth_bounded_after_any_history (s : St) (ops : List Op) (hi : Inv s) (h
 theorem parsed_document_stays_within_depth (d : IDoc) (ops : List Op) (hd : topsDepth d.kids ≤ Gen.Xml.maxDepth_element) :
     elemHeight (C12.run (buildSt d) ops).doc ≤ Gen.Xml.maxDepth_element :=
   (depth_bounded_after_any_history (buildSt d) ops (buildSt_inv d) (buildSt_heightInv d hd)).2
+
+/-- END TO END: whatever text the (translated) parser accepts, and whatever DOM operations follow, the document tree never nests
+    elements deeper than `MAX_ELEMENT_DEPTH` - the depth at which the parser stops reading.  (parser: `C03.depth_refused` on the
+    syntax tree; `absDocument_depth` from the syntax tree to the abstract document; `buildSt_heightInv`; the invariant) -/
+theorem parsed_and_edited_stays_within_depth (text : Str) (d : IDoc) (rest : Str) (ops : List Op)
+    (h : parseDoc text = .ok (d, rest)) :
+    elemHeight (C12.run (buildSt d) ops).doc ≤ Gen.Xml.maxDepth_element := by
+  obtain ⟨c, _, habs, hdepth, _⟩ := C03.depth_refused _ _ text d rest h (by decide) (by decide)
+  exact parsed_document_stays_within_depth d ops (Nat.le_trans (absDocument_depth c d habs) hdepth)
 
 example : topsDepth [TopItem.elem (.elem ⟨none, ['r']⟩ [] [.elem ⟨none, ['a']⟩ [] [], .text ['t']])] = 2 := by decide
 
